@@ -854,6 +854,16 @@ def with_pre_errors(rng, case):
     return case
 
 
+_MAKERS = [(rand_scalar_case, 0.38), (rand_seq_case, 0.1), (rand_dup_case, 0.1), (rand_fields_case, 0.1),
+           (rand_dict_case, 0.12), (rand_net_case, 0.14), (hostile_case, 0.06)]
+
+
+def PROP_GEN(rng):
+    """one random finished C15 case (also used by C16's built-in stream)"""
+    f = rng.choices([m for m, _ in _MAKERS], [w for _, w in _MAKERS])[0]
+    return finish(with_pre_errors(rng, f(rng)))
+
+
 class C15(Property):
     id = "C15"
     title = "built-in validators decide their documented predicate and explain failures"
@@ -916,15 +926,8 @@ class C15(Property):
                        "member counts 0..5 against every bound 0..4; Luhn10 on every integer below 2000 (thorough: 20000)")
 
     def generate(self, rng, n, tier):
-        makers = [(rand_scalar_case, 0.38), (rand_seq_case, 0.1), (rand_dup_case, 0.1), (rand_fields_case, 0.1),
-                  (rand_dict_case, 0.12), (rand_net_case, 0.14), (hostile_case, 0.06)]
-        fns = [m for m, _ in makers]
-        ws = [w for _, w in makers]
         for _ in range(n):
-            f = rng.choices(fns, ws)[0]
-            c = f(rng)
-            c = with_pre_errors(rng, c)
-            yield finish(c)
+            yield PROP_GEN(rng)
 
     def has_model(self, case):
         def ok(x):
